@@ -132,10 +132,11 @@ func genTopoSpec(t *rapid.T, minReps, maxReps int, gaps bool) topoSpec {
 }
 
 type c04Case struct {
-	Topo  topoSpec `json:"topo"`
-	Seeds []int    `json:"seeds"`
-	Slots []int    `json:"slots"` // probe slots beyond the range boundaries
-	Mask  uint64   `json:"mask"`  // varies command choice / letter case / tagging deterministically
+	Failover bool     `json:"failover_then_again"` // after the first batch a replica is promoted in place and a second batch is judged
+	Topo     topoSpec `json:"topo"`
+	Seeds    []int    `json:"seeds"`
+	Slots    []int    `json:"slots"` // probe slots beyond the range boundaries
+	Mask     uint64   `json:"mask"`  // varies command choice / letter case / tagging deterministically
 }
 
 func c04Gen(t *rapid.T) c04Case {
@@ -152,6 +153,7 @@ func c04Gen(t *rapid.T) c04Case {
 		c.Slots = append(c.Slots, rapid.IntRange(0, 16383).Draw(t, "slot"))
 	}
 	c.Mask = rapid.Uint64().Draw(t, "mask")
+	c.Failover = rapid.IntRange(0, 2).Draw(t, "failover") == 0
 	return c
 }
 
@@ -240,8 +242,64 @@ func c04Exec(c *c04Case) []Discrepancy {
 }
 
 func c04Run(f *Fixture, c *c04Case) []Discrepancy {
-	cfg := c.Topo.Cfg
+	ds := c04Judge(f, c, c04Batch(c))
+	if len(ds) > 0 || !c.Failover {
+		return ds
+	}
+	// a replica is promoted in place: the old master becomes its replica (both nodes stay connected)
+	var rep, old *fakecluster.TNode
+	for i := range f.Topo.Nodes {
+		n := &f.Topo.Nodes[i]
+		if n.Master {
+			continue
+		}
+		for j := range f.Topo.Nodes {
+			if f.Topo.Nodes[j].Master && f.Topo.Nodes[j].ID == n.MasterID {
+				rep, old = n, &f.Topo.Nodes[j]
+			}
+		}
+		if rep != nil {
+			break
+		}
+	}
+	if rep == nil {
+		return nil
+	}
+	oldID := old.ID
+	rep.Master, rep.Slots, rep.MasterID = true, old.Slots, ""
+	old.Master, old.Slots, old.MasterID = false, nil, rep.ID
+	for i := range f.Topo.Nodes {
+		if n := &f.Topo.Nodes[i]; !n.Master && n.MasterID == oldID && n != old {
+			n.MasterID = rep.ID
+		}
+	}
+	since := time.Now()
+	f.Topo.SetInfoFromTopo(f.Cluster)
+	f.Topo.Clone().Install(f.Cluster)
+	f.Owners = f.Topo.Expected(nil)
+	round := 1000
+	if msg := c14Converge(f, f.Owners, c14Slots(f.Topo), &round, 10*time.Second); msg != "" {
+		return append(f.checkAlive("C04", nil), disc("C04/not-routed-by-new-topology", "10 s after a replica was promoted in place the routing still differs from the description: %s", msg))
+	}
+	evidence.For("C04").Add("second_batches_after_failover", 1)
 	reqs := c04Batch(c)
+	if len(reqs) > 240 {
+		reqs = reqs[:240]
+	}
+	ds = c04JudgeSince(f, c, reqs, since)
+	for i := range ds {
+		ds[i].Msg = "after a replica was promoted in place: " + ds[i].Msg
+	}
+	return ds
+}
+
+func c04Judge(f *Fixture, c *c04Case, reqs []Req) []Discrepancy {
+	return c04JudgeSince(f, c, reqs, time.Time{})
+}
+
+// c04JudgeSince judges a batch; the per-connection handshake order is only demanded of connections opened after since.
+func c04JudgeSince(f *Fixture, c *c04Case, reqs []Req, since time.Time) []Discrepancy {
+	cfg := c.Topo.Cfg
 	var ds []Discrepancy
 	// several connections, each a slice of the batch, so that backend connections are shared
 	const per = 400
@@ -297,7 +355,7 @@ func c04Run(f *Fixture, c *c04Case) []Discrepancy {
 	}
 	// handshake order on every backend connection
 	for _, ci := range f.Cluster.Conns() {
-		if len(ci.Events) == 0 {
+		if len(ci.Events) == 0 || ci.Opened.Before(since) {
 			continue
 		}
 		if cfg.Password != "" && ci.Events[0] != "auth" {
@@ -374,6 +432,9 @@ func c04Classify(c *c04Case) (bool, []string) {
 	}
 	if c.Topo.Cfg.Password != "" {
 		cls = append(cls, "password")
+	}
+	if c.Failover && reps > 0 {
+		cls = append(cls, "second-batch-after-failover-in-place")
 	}
 	return reps > 0, cls
 }
